@@ -273,6 +273,26 @@ def build(arg):
     return T
 """
 
+# the *same* entity class, elaborated in two environments: architecture() reads the module global
+MODULES["env"] = HEADER + """
+W = 3
+
+class T(Entity):
+    o = Port.output(Unsigned[8])
+
+    def architecture(self):
+        w = W
+
+        @std.concurrent
+        def logic():
+            self.o <<= w
+
+def build(arg):
+    global W
+    W = arg
+    return T
+"""
+
 # names that collide (case-insensitively, with reserved words, with each other across scopes)
 MODULES["names"] = HEADER + """
 class T(Entity):
@@ -609,6 +629,8 @@ LETTERS: dict[str, tuple] = {
     "pushed": ("pushed", None, "accept", "pushed signals (^= and .push)"),
     "glob3": ("glob", 3, "accept", "module-level helper reading module global W, W=3"),
     "glob5": ("glob", 5, "accept", "same module, W=5"),
+    "env3": ("env", 3, "accept", "one module-level entity class whose architecture() reads module global W, W=3"),
+    "env5": ("env", 5, "accept", "same class object, W=5"),
     "names": ("names", None, "accept", "colliding / reserved / case-different names"),
     "exitcoro": ("exitcoro", None, "accept", "sub-entities with coroutines + cohdl.always, cohdl.on_block_exit handlers"),
     "rej_arch": ("rej_arch", None, "reject", "exception raised in architecture()"),
